@@ -69,6 +69,21 @@ class Lock:
 
 # ------------------------------------------------------------------------------------------------
 # (1) proofs
+def coq_cone(prop_v):
+    """the .v files Properties/<pid>.v transitively imports from the JamV namespace"""
+    seen, todo = set(), [prop_v]
+    while todo:
+        f = todo.pop()
+        if f in seen or not os.path.exists(f):
+            continue
+        seen.add(f)
+        src = re.sub(r"\(\*.*?\*\)", "", open(f, encoding="utf-8").read(), flags=re.S)
+        for stmt in re.findall(r"(?:From\s+JamV\s+)?Require\b(.*?)\.(?=\s)", src, flags=re.S):
+            for d, n in re.findall(r"\b(Base|Model|Proofs|Properties)\.([A-Za-z_][\w']*)", stmt):
+                todo.append(os.path.join(COQ, d, n + ".v"))
+    return sorted(seen)
+
+
 def check_proofs(pid, spec):
     """Rebuild the dependency cone of Properties/<pid>.v and re-run coqc on the property file,
     parsing theorems and Print Assumptions. Returns dict(ok, obligations, discharged, axioms, log)."""
@@ -89,9 +104,9 @@ def check_proofs(pid, spec):
         if rc != 0:
             res["log"] = out[-4000:]
             return res
-        # forbidden constructs anywhere in the development
+        # forbidden constructs anywhere in the dependency cone of the property file
         bad = []
-        for v in glob.glob(os.path.join(COQ, "*", "*.v")):
+        for v in coq_cone(prop_v):
             for i, line in enumerate(open(v, encoding="utf-8")):
                 code = re.sub(r"\(\*.*?\*\)", "", line)
                 if FORBIDDEN.search(code):
